@@ -678,16 +678,6 @@ impl<D: AsyncDB, M: MakeConnection<Conn = D>> Runner<D, M> {
                 loc: _,
                 retry: _,
             } => {
-                let sql = match self.may_substitute(sql, true) {
-                    Ok(sql) => sql,
-                    Err(error) => {
-                        return RecordOutput::Statement {
-                            count: 0,
-                            error: Some(error),
-                        }
-                    }
-                };
-
                 let conn = match self.conn.get(connection).await {
                     Ok(conn) => conn,
                     Err(e) => {
@@ -700,6 +690,18 @@ impl<D: AsyncDB, M: MakeConnection<Conn = D>> Runner<D, M> {
                 if should_skip(&self.labels, conn.engine_name(), &conditions) {
                     return RecordOutput::Nothing;
                 }
+
+                // Substitute only after the skip check: a skipped record must not fail.
+                let sql = match Self::may_substitute(self.substitution_on, &self.locals, sql, true)
+                {
+                    Ok(sql) => sql,
+                    Err(error) => {
+                        return RecordOutput::Statement {
+                            count: 0,
+                            error: Some(error),
+                        }
+                    }
+                };
 
                 let ret = conn.run(&sql).await;
                 match ret {
@@ -730,7 +732,12 @@ impl<D: AsyncDB, M: MakeConnection<Conn = D>> Runner<D, M> {
                     return RecordOutput::Nothing;
                 }
 
-                let mut command = match self.may_substitute(command, false) {
+                let mut command = match Self::may_substitute(
+                    self.substitution_on,
+                    &self.locals,
+                    command,
+                    false,
+                ) {
                     Ok(command) => command,
                     Err(error) => {
                         return RecordOutput::System {
@@ -827,17 +834,6 @@ impl<D: AsyncDB, M: MakeConnection<Conn = D>> Runner<D, M> {
                 loc: _,
                 retry: _,
             } => {
-                let sql = match self.may_substitute(sql, true) {
-                    Ok(sql) => sql,
-                    Err(error) => {
-                        return RecordOutput::Query {
-                            error: Some(error),
-                            types: vec![],
-                            rows: vec![],
-                        }
-                    }
-                };
-
                 let conn = match self.conn.get(connection).await {
                     Ok(conn) => conn,
                     Err(e) => {
@@ -851,6 +847,19 @@ impl<D: AsyncDB, M: MakeConnection<Conn = D>> Runner<D, M> {
                 if should_skip(&self.labels, conn.engine_name(), &conditions) {
                     return RecordOutput::Nothing;
                 }
+
+                // Substitute only after the skip check: a skipped record must not fail.
+                let sql = match Self::may_substitute(self.substitution_on, &self.locals, sql, true)
+                {
+                    Ok(sql) => sql,
+                    Err(error) => {
+                        return RecordOutput::Query {
+                            error: Some(error),
+                            types: vec![],
+                            rows: vec![],
+                        }
+                    }
+                };
 
                 let (types, mut rows) = match conn.run(&sql).await {
                     Ok(out) => match out {
@@ -1392,9 +1401,14 @@ impl<D: AsyncDB, M: MakeConnection<Conn = D>> Runner<D, M> {
     /// Otherwise, we just do simple string substitution for `__TEST_DIR__` and `__NOW__`.
     /// This is useful for `system` commands: The shell can do the environment variables, and we can
     /// write strings like `\n` without escaping.
-    fn may_substitute(&self, input: String, subst_env_vars: bool) -> Result<String, AnyError> {
-        if self.substitution_on {
-            Substitution::new(&self.locals, subst_env_vars)
+    fn may_substitute(
+        substitution_on: bool,
+        locals: &RunnerLocals,
+        input: String,
+        subst_env_vars: bool,
+    ) -> Result<String, AnyError> {
+        if substitution_on {
+            Substitution::new(locals, subst_env_vars)
                 .substitute(&input)
                 .map_err(|e| Arc::new(e) as AnyError)
         } else {
